@@ -154,7 +154,14 @@ CLAIMS = {
              "(NAME, UPPER, NODEF, MULT, ALL, ALL_AF); files of another type never produce any (G8); G7 (no guard at all) is refuted "
              "by witness (known finding).  The proofs are about prot_run, a Gallina function regenerated statement by statement from "
              "CheckPreprocessorProtection.run on every run (fail closed), and about IsPreprocessorStatement's effect taken from a "
-             "generated directive table; helpers are pinned by AST fingerprints.  Correspondence: the real statement sequence, "
+             "generated directive table; helpers are pinned by AST fingerprints.  FILE level (partial): `[42 header] #ifndef X\\n# "
+             "define Y\\n` followed by any text the tokenizer accepts is lexed into exactly the tokens of the two directive "
+             "lines plus the shifted tokens of the rest, for all non-keyword identifiers X, Y (guard_of base is one for every "
+             "base starting with a letter, _ or .); the views prot_run takes of these lines and of `#endif` are those of the "
+             "abstract statements; hence accept, G1, G2, G3, G6 at file level (C14_file_*_partial) for every oracle that "
+             "recognises the directive lines as IsPreprocessorStatement and whose turns over the body are simulated by a "
+             "balanced abstract body - hypotheses that the per-statement correspondence checks on every run; G4, G5 stay "
+             "trace-level.  Correspondence: the real statement sequence, "
              "preprocessor state and emitted codes after every statement vs the model run inside Coq on the abstracted trace.  "
              "Search: 42 header + guard + body x base names over [a-z0-9_.] x {correct, G1..G8} x placements on the implementation.",
         ref="DESIGN.md 4.14", technique="Rocq proof over a check translated from source + per-statement state correspondence + mutation search",
